@@ -1,5 +1,6 @@
 pub mod c20;
 pub mod common;
+pub mod selftest;
 pub mod sem;
 pub mod roundtrip;
 pub mod c01;
@@ -24,6 +25,7 @@ use crate::run::Config;
 
 pub fn dispatch(cfg: &Config) -> i32 {
     match cfg.prop.as_str() {
+        "selftest" => selftest::run(cfg),
         "C01" => c01::run(cfg),
         "C02" => c02::run(cfg),
         "C03" => c03::run(cfg),
